@@ -446,7 +446,7 @@ LAWS = {"engine": "laws", "build": "all", "args": ([], []), "timeout": (120, 120
 PLANS = {
     "C01": [M(["general", "blocking", "notime"], 11, 100), S(["traffic", "backpressure", "refs"], 18000, 150000, mode="diff"), S(["timeouts", "backpressure"], 12000, 100000, seed_off=2000), S(["traffic", "backpressure", "kill"], 9000, 60000, build="none", seed_off=1000)],
     "C02": [M(["general", "blocking"], 6, 60), S(["traffic", "backpressure", "idle"], 18000, 150000, mode="diff"), S(["traffic", "backpressure"], 9000, 60000, build="none", seed_off=1000)],
-    "C03": [M(["tightrace"], 12, 150, fp_quick=True), M(["deathrace", "general", "blocking", "notime", "abort"], 13, 110), S(["traffic", "lifecycle", "kill", "faults", "timeouts"], 12000, 100000, mode="diff"), S(["kill", "lifecycle", "backpressure"], 9000, 60000, build="none", seed_off=1000)],
+    "C03": [M(["tightrace"], 12, 150, fp_quick=True), M(["deathrace", "general", "blocking", "notime", "abort"], 13, 110), M(["reentrant"], 2, 10, seed_off=21), S(["traffic", "lifecycle", "kill", "faults", "timeouts"], 12000, 100000, mode="diff"), S(["kill", "lifecycle", "backpressure"], 9000, 60000, build="none", seed_off=1000)],
     "C04": [S(["lifecycle", "kill", "faults"], 18000, 150000), S(["lifecycle", "kill"], 9000, 60000, build="none", seed_off=1000)],
     "C05": [LAWS, S(["lifecycle", "faults", "kill"], 18000, 150000), S(["lifecycle", "faults"], 9000, 60000, build="none", seed_off=1000)],
     "C06": [M(["general", "deathrace"], 6, 60), S(["kill", "backpressure", "lifecycle"], 18000, 150000, mode="diff"), S(["kill", "refs"], 12000, 60000, build="none", seed_off=1000)],
@@ -456,7 +456,7 @@ PLANS = {
     "C10": [LAWS, M(["blocking"], 8, 60), M(["starve"], 3, 30, seed_off=3), S(["timeouts", "kill"], 24000, 200000, mode="diff"), S(["timeouts"], 12000, 80000, build="none", seed_off=1000)],
     "C11": [MIRI, M(["spawnstorm", "abort"], 7, 60), M(["readers"], 4, 40, seed_off=9), S(["refs", "lifecycle", "traffic"], 18000, 150000, mode="diff"), S(["refs", "kill"], 9000, 60000, build="none", seed_off=1000)],
     "C12": [MIRI, S(["faults"], 30000, 250000), S(["deadlock"], 15000, 100000), S(["faults"], 12000, 80000, build="none", seed_off=1000)],
-    "C13": [MIRI, M(["general", "blocking", "deathrace"], 9, 90), S(["traffic", "timeouts", "kill", "faults", "lifecycle"], 12000, 100000, mode="diff"), S(["timeouts", "kill"], 9000, 60000, build="none", seed_off=1000)],
+    "C13": [MIRI, M(["general", "blocking", "deathrace"], 9, 90), M(["reentrant"], 2, 10, seed_off=21), S(["traffic", "timeouts", "kill", "faults", "lifecycle"], 12000, 100000, mode="diff"), S(["timeouts", "kill"], 9000, 60000, build="none", seed_off=1000)],
     "C14": [M(["mutualask"], 4, 40), S(["deadlock"], 48000, 400000, perts=(2, 4)), S(["deadlock"], 12000, 100000, mode="erased", seed_off=300)],
     "C15": [MIRI, S(["deadlock"], 48000, 400000, perts=(2, 4), seed_off=500), S(["deadlock"], 12000, 100000, mode="erased", seed_off=800), S(["traffic", "faults"], 9000, 60000)],
     "C16": [M(["blocking"], 5, 30), S(["traffic", "refs", "timeouts", "kill", "lifecycle", "backpressure", "idle", "faults"], 7500, 60000, mode="diff"), S(["refs", "traffic", "kill"], 6000, 40000, mode="diff", build="none", seed_off=1000)],
